@@ -25,7 +25,12 @@ import (
 	"time"
 )
 
-const verifDir = "/verif"
+var verifDir = func() string {
+	if v := os.Getenv("VERIF_DIR"); v != "" {
+		return v
+	}
+	return "/verif"
+}()
 
 type profSpec struct {
 	Profile string
